@@ -131,7 +131,7 @@ fn hook(s: u32, obj: usize) {
     }
     let np = PLAN_N.load(Relaxed);
     for i in 0..np {
-        if PLAN_SITE[i].load(Relaxed) == s && PLAN_K[i].load(Relaxed) == n {
+        if PLAN_SITE[i].load(Relaxed) == s && (PLAN_K[i].load(Relaxed) == n || PLAN_K[i].load(Relaxed) == 0) {
             let mut us = PLAN_US[i].load(Relaxed);
             let flags = PLAN_FLAGS[i].load(Relaxed);
             if is_armed_site(s) {
